@@ -404,6 +404,13 @@ func globalsCensus(r *Run, scopes []string, format string, discharge ...func(pkg
 					}
 				case *ast.IncDecStmt:
 					mark(x.X, x.Pos())
+				case *ast.SendStmt:
+					// a package-level channel used as a pool/queue: a send publishes the value to every goroutine
+					mark(x.Chan, x.Pos())
+				case *ast.UnaryExpr:
+					if x.Op == token.ARROW {
+						mark(x.X, x.Pos())
+					}
 				case *ast.CallExpr:
 					if id, ok := ast.Unparen(x.Fun).(*ast.Ident); ok && (id.Name == "delete" || id.Name == "clear") && len(x.Args) > 0 {
 						mark(x.Args[0], x.Pos())
@@ -411,7 +418,7 @@ func globalsCensus(r *Run, scopes []string, format string, discharge ...func(pkg
 					// mutating methods of sync.Map / atomic values / buffers rooted at a global
 					if se, ok := ast.Unparen(x.Fun).(*ast.SelectorExpr); ok {
 						switch se.Sel.Name {
-						case "Store", "Delete", "LoadOrStore", "Swap", "Add", "CompareAndSwap", "Reset", "WriteString", "Write", "Put":
+						case "Store", "Delete", "LoadOrStore", "Swap", "Add", "CompareAndSwap", "Reset", "WriteString", "Write", "Put", "Get":
 							if v := rootVar(se.X); v != nil {
 								if nt := namedOf(v.Type()); nt != nil && nt.Obj().Pkg() != nil {
 									pp := nt.Obj().Pkg().Path()
